@@ -102,8 +102,10 @@ def specTrace (c : Cfg) : Bool → Bool → List Op → List Ev
     (if started then [] else [.read]) ++
     (if rendered then [] else initEvents c ++ execEvents c ++ [writeEvent c]) ++ specTrace c true true ops
 
-/-- domain of C13: at least one target, the artifacts persist without failure -/
-def dom (c : Cfg) : Bool := !c.targets.isEmpty && writeEvent c != .died
+/-- domain of C13: at least one target, every target one of the request's files (what protoc
+    sends), the artifacts persist without failure -/
+def dom (c : Cfg) : Bool :=
+  !c.targets.isEmpty && c.targets.all (fun t => c.files.any (·.1 == t)) && writeEvent c != .died
 
 def judge (c : Cfg) (ops : List Op) (o : List Ev) : Option String :=
   let want := specTrace c false false ops
